@@ -152,7 +152,7 @@ impl Exec {
             if let Err((p, d)) = self.model.check_new_handle(e) {
                 return Err(self.viol(&[p], "new-handle", d));
             }
-            let keep = i % keep_every == 0 && kept < 160;
+            let keep = i % keep_every == 0 && (kept as u32) < if self.cfg.keep_cap == 0 { 160 } else { self.cfg.keep_cap };
             let hn = self.model.add_handle(e, true, H(0, if keep { kept } else { u16::MAX }));
             if keep {
                 self.ctx.bind(H(0, kept), e);
